@@ -202,4 +202,15 @@ theorem renderInv_step {s s' : Sys} {tid : Tid} (hi : RenderInv s) (h : step s t
 theorem renderInv_reachable {s0 s : Sys} (h0 : Init s0) (hr : Reachable s0 s) : RenderInv s :=
   reachable_induction hr (renderInv_init h0) (fun _ _ _ ih h => renderInv_step ih h)
 
+/-- a step changes a memo cell, if at all, from whatever it was to its complete idempotent value – in that one step -/
+theorem step_memo_complete {s s' : Sys} {tid : Tid} (h : step s tid = some s') (i k : Nat) :
+    s'.sh.memo i k = s.sh.memo i k ∨ s'.sh.memo i k = some (memoVal i k) := by
+  obtain ⟨sh, th, ht, rfl⟩ := step_iff.1 h
+  rcases tstep_memo ht with e | ⟨i', k', e⟩
+  · left; simp [e]
+  · simp only [set_sh, e]
+    split
+    · next hh => obtain ⟨rfl, rfl⟩ := hh; right; rfl
+    · left; rfl
+
 end MakoModel.Conc
